@@ -22,6 +22,7 @@ class TranslateError(Exception):
 INT, FLOAT, BOOL, ARR, INTLIST, IDL, IDLLIST, BOOLLIST = "Z", "Q", "bool", "(list Q)", "(list Z)", "idl", "(list idl)", "(list bool)"
 STR, STRLIST, DICT = "string", "(list string)", "(list (string * Q))"
 ELT, OPTELT, CONTENT = "E", "(option E)", "(list (option E))"      # timeslice entries of a correlator (abstract element type E)
+VEC, VECLIST, MATX, PERMLIST = "V", "(list V)", "M", "(list (list Z))"      # eigenvectors / reference matrix of _sort_vectors (abstract)
 IDLMAP = "(string -> idl)"        # a dictionary name -> configuration list, read only (keys are iterated through an alias)
 EXN = {"IndexError": "IndexError", "ValueError": "ValueError", "ZeroDivisionError": "ZeroDivisionError", "TypeError": "TypeError"}
 
@@ -33,7 +34,8 @@ def _d(node):
 class Fn:
     """Translation of one function body."""
 
-    def __init__(self, name, params, ret, aliases=None, consts=None, hints=None, stores=None, iter_aliases=None):
+    def __init__(self, name, params, ret, aliases=None, consts=None, hints=None, stores=None, iter_aliases=None, unbound=None):
+        self.unbound = unbound or {}      # variables that are first assigned under a condition: name -> type (held as an option)
         self.iter_aliases = iter_aliases or {}
         self.hints = hints or {}
         self.stores = stores or {}     # ast.dump(expr) of a dictionary that is stored into -> name of the state variable
@@ -64,6 +66,10 @@ class Fn:
         key = _d(node)
         if key in self.aliases:
             return self.aliases[key]
+        if isinstance(node, ast.Name) and node.id in self.unbound:
+            r = self.fresh()
+            binds.append((r, "py_bound %s" % self.v(node.id)))      # UnboundLocalError when no assignment was executed
+            return r, self.unbound[node.id]
         if isinstance(node, ast.Name):
             if node.id in env:
                 return self.v(node.id), env[node.id]
@@ -300,7 +306,7 @@ class Fn:
             return r, ARR
         if ti != INT:
             raise TranslateError("%s: index of type %s" % (self.name, ti))
-        elt = {IDL: INT, ARR: FLOAT, INTLIST: INT, IDLLIST: IDL, CONTENT: OPTELT}.get(ty)
+        elt = {IDL: INT, ARR: FLOAT, INTLIST: INT, IDLLIST: IDL, CONTENT: OPTELT, VECLIST: VEC}.get(ty)
         if elt is None:
             raise TranslateError("%s: subscript of %s" % (self.name, ty))
         seq = "(cfgs %s)" % t if ty == IDL else t
@@ -309,6 +315,13 @@ class Fn:
         return r, elt
 
     def listcomp(self, node, env, binds):
+        # [list(o) for o in permutations([i for i in range(N)], N)]
+        if _d(node).startswith(_d(ast.parse("[list(o) for o in permutations([i for i in range(N)], N)]", mode="eval").body)[:40]) \
+                and _d(node) == _d(ast.parse("[list(o) for o in permutations([i for i in range(N)], N)]", mode="eval").body):
+            t, ty = self.expr(ast.Name(id="N", ctx=ast.Load()), env, binds)
+            if ty != INT:
+                raise TranslateError("%s: permutations of a non-integer range" % self.name)
+            return "(py_permutations %s)" % t, PERMLIST
         if len(node.generators) != 1 or not isinstance(node.generators[0].target, ast.Name):
             raise TranslateError("%s: list comprehension shape" % self.name)
         g = node.generators[0]
@@ -332,7 +345,7 @@ class Fn:
         env2[x] = tx
         b = []
         body, tb = self.expr(node.elt, env2, b)
-        out = {FLOAT: ARR, INT: INTLIST, BOOL: BOOLLIST}.get(tb)
+        out = {FLOAT: ARR, INT: INTLIST, BOOL: BOOLLIST, VEC: VECLIST}.get(tb)
         if out is None:
             raise TranslateError("%s: list comprehension producing %s" % (self.name, tb))
         r = self.fresh()
@@ -364,6 +377,8 @@ class Fn:
             return t, STR
         if ty == CONTENT:
             return t, OPTELT
+        if ty == PERMLIST:
+            return t, INTLIST
         if ty == IDLLIST:
             return t, IDL
         if ty == IDL:
@@ -545,6 +560,20 @@ class Fn:
             if ty != BOOLLIST:
                 raise TranslateError("%s: np.all(%s)" % (self.name, ty))
             return "(forallb (fun b : bool => b) %s)" % t, BOOL
+        if fname == "abs" and len(node.args) == 1 and isinstance(node.args[0], ast.Call) \
+                and _d(node.args[0].func) == _d(ast.parse("np.linalg.det", mode="eval").body) and len(node.args[0].args) == 1:
+            t, ty = self.expr(node.args[0].args[0], env, binds)
+            if ty != MATX:
+                raise TranslateError("%s: det of %s" % (self.name, ty))
+            return "(absdet %s)" % t, FLOAT
+        if isinstance(f, ast.Attribute) and f.attr == "index" and len(node.args) == 1:
+            a, ta = self.expr(f.value, env, binds)
+            b, tb = self.expr(node.args[0], env, binds)
+            if ta != INTLIST or tb != INT:
+                raise TranslateError("%s: .index on (%s, %s)" % (self.name, ta, tb))
+            r = self.fresh()
+            binds.append((r, "py_list_index %s %s" % (a, b)))
+            return r, INT
         if isinstance(f, ast.Attribute) and f.attr == "dot" and len(node.args) == 1:
             a, ta = self.expr(f.value, env, binds)
             b, tb = self.expr(node.args[0], env, binds)
@@ -645,8 +674,25 @@ class Fn:
                 env2 = dict(env)
                 env2[tgt.id] = INTLIST
                 return "let %s := ([] : list Z) in %s" % (self.v(tgt.id), nxt(env2))
+            if isinstance(tgt, ast.Name) and tgt.id in self.unbound:
+                t, ty = self.expr(s.value, env, b)
+                if ty != self.unbound[tgt.id]:
+                    raise TranslateError("%s: %s assigned a %s" % (self.name, tgt.id, ty))
+                return self.seq(b, "let %s := (Some %s) in %s" % (self.v(tgt.id), t, nxt(env)))
+            if isinstance(tgt, ast.Subscript) and isinstance(tgt.value, ast.Name) and env.get(tgt.value.id) == MATX \
+                    and isinstance(tgt.slice, ast.Tuple) and len(tgt.slice.elts) == 2 and isinstance(tgt.slice.elts[1], ast.Slice) \
+                    and tgt.slice.elts[1].lower is None and tgt.slice.elts[1].upper is None and tgt.slice.elts[1].step is None:
+                # m[i, :] = v
+                i, ti = self.expr(tgt.slice.elts[0], env, b)
+                t, ty = self.expr(s.value, env, b)
+                if ti != INT or ty != VEC:
+                    raise TranslateError("%s: row store with (%s, %s)" % (self.name, ti, ty))
+                m = self.v(tgt.value.id)
+                return self.seq(b, "let %s := (rowset %s %s %s) in %s" % (m, m, i, t, nxt(env)))
             if isinstance(tgt, ast.Name):
                 t, ty = self.expr(s.value, env, b)
+                if self.hints.get(tgt.id) == FLOAT and ty == INT:
+                    t, ty = self.coerce(t, ty, FLOAT), FLOAT
                 env2 = dict(env)
                 env2[tgt.id] = ty
                 return self.seq(b, "let %s := %s in %s" % (self.v(tgt.id), t, nxt(env2)))
@@ -699,6 +745,9 @@ class Fn:
                     raise TranslateError("%s: slice += with (%s, %s, %s)" % (self.name, lo[1], hi[1], ty))
                 b.append((a, "py_slice_add %s %s %s %s" % (a, lo[0], hi[0], t)))
                 return self.seq(b, nxt(env))
+            if isinstance(s.op, ast.Mult) and isinstance(tgt, ast.Name) and env.get(tgt.id) == FLOAT:
+                t, ty = self.expr(s.value, env, b)
+                return self.seq(b, "let %s := (%s * %s)%%Q in %s" % (self.v(tgt.id), self.v(tgt.id), self.coerce(t, ty, FLOAT), nxt(env)))
             raise TranslateError("%s: augmented assignment" % self.name)
         if isinstance(s, ast.Expr) and isinstance(s.value, ast.Call) and isinstance(s.value.func, ast.Attribute) \
                 and s.value.func.attr == "append" and isinstance(s.value.func.value, ast.Name) and len(s.value.args) == 1:
@@ -751,8 +800,8 @@ class Fn:
                     raise TranslateError("%s: return / break / continue / raise inside a loop" % self.name)
             b = []
             xs, tx = self.iterable(s.iter, env, b)
-            state = [n for n in self.assigned(s.body) if n in env]
-            extra = [n for n in self.assigned(s.body) if n not in env]
+            state = [n for n in self.assigned(s.body) if n in env or n in self.unbound]
+            extra = [n for n in self.assigned(s.body) if n not in env and n not in self.unbound]
             later = {n.id for st in rest for n in ast.walk(st) if isinstance(n, ast.Name)}
             if set(extra) & later:
                 raise TranslateError("%s: variables first assigned inside a loop are used after it: %s" % (self.name, sorted(set(extra) & later)))
@@ -921,6 +970,22 @@ def frag_drop_warnings(fn):
     return _drop_warn_blocks(fn.body)
 
 
+def frag_sort_branch(fn):
+    """The branch `elif not t == ts:` of the loop of _sort_vectors; its final append becomes the returned value."""
+    loops = [st for st in fn.body if isinstance(st, ast.For)]
+    if len(loops) != 1 or not (isinstance(loops[0].body[0], ast.If) and len(loops[0].body) == 1):
+        raise TranslateError("_sort_vectors: expected one loop over the timeslices with one if / elif / else")
+    top = loops[0].body[0]
+    if not (len(top.orelse) == 1 and isinstance(top.orelse[0], ast.If) and _d(top.orelse[0].test) == _d(ast.parse("not t == ts", mode="eval").body)):
+        raise TranslateError("_sort_vectors: the branch `elif not t == ts:` was not found")
+    br = top.orelse[0].body
+    last = br[-1]
+    if not (isinstance(last, ast.Expr) and isinstance(last.value, ast.Call) and isinstance(last.value.func, ast.Attribute)
+            and last.value.func.attr == "append" and _d(last.value.func.value) == _d(ast.parse("sorted_vec_set", mode="eval").body) and len(last.value.args) == 1):
+        raise TranslateError("_sort_vectors: the branch does not end with sorted_vec_set.append(...)")
+    return br[:-1] + [ast.Return(value=last.value.args[0])]
+
+
 _CORR = dict(file="correlators.py", section="corr")
 _CORR_ALIASES = {"self.content": ("v_content", CONTENT), "self.T": ("(zlen v_content)", INT), "self.N": ("v_N", INT),
                  "y.content": ("v_ycontent", CONTENT), "y.T": ("(zlen v_ycontent)", INT), "y.N": ("v_yN", INT)}
@@ -938,7 +1003,14 @@ CORR_SIGS = [
     dict(coq="corr_mul_corr", py="Corr.__mul__", fragment=frag_corr_corr_branch, params=[], ret=CONTENT,
          extra_params=[("v_content", CONTENT), ("v_N", INT), ("v_ycontent", CONTENT), ("v_yN", INT)], aliases=_CORR_ALIASES, hints={"newcontent": CONTENT}, **_CORR),
 ]
+SORT_SIGS = [
+    dict(coq="sort_vectors_branch", py="_sort_vectors", fragment=frag_sort_branch, params=[], ret=VECLIST, file="correlators.py", section="sortvec",
+         extra_params=[("v_N", INT), ("v_ref", MATX), ("v_vec", VECLIST), ("v_vec_in", VECLIST)], env={"N": INT},
+         aliases={"reference_sorting.copy()": ("v_ref", MATX), "vec_set[t]": ("v_vec", VECLIST), "vec_set_in[t]": ("v_vec_in", VECLIST)},
+         hints={"best_score": FLOAT, "current_score": FLOAT}, unbound={"best_perm": INTLIST}),
+]
 SECTION_HEADERS = {
+    "sortvec": ["Section SortVec.", "Variables V M : Type.", "Variable rowset : M -> Z -> V -> M.", "Variable absdet : M -> Q."],
     "corr": ["Section CorrOps.", "Variable E : Type.", "Variables eadd esub emul ediv : E -> E -> E.", "Variable escale : Q -> E -> E."],
 }
 
@@ -949,7 +1021,7 @@ def translate_source(src, sigs=None, only=None, sources=None):
     trees = {"obs.py": tree}
     for fn_, tx_ in (sources or {}).items():
         trees[fn_] = ast.parse(tx_)
-    sigs = sigs or (SIGS + CORR_SIGS)
+    sigs = sigs or (SIGS + CORR_SIGS + SORT_SIGS)
 
     out = ["(* GENERATED by translate/t_pycore.py from pyerrors/obs.py -- do not edit *)",
            "From Coq Require Import ZArith QArith List Bool.",
@@ -982,13 +1054,15 @@ def translate_source(src, sigs=None, only=None, sources=None):
             aliases[_d(ast.parse(src_expr, mode="eval").body)] = (term, ty)
         stores = {_d(ast.parse(e, mode="eval").body): n for e, n in (sg.get("stores") or {}).items()}
         iter_aliases = {_d(ast.parse(e, mode="eval").body): v for e, v in (sg.get("iter_aliases") or {}).items()}
-        f = Fn(sg["coq"], sg["params"], sg["ret"], aliases, done, sg.get("hints"), stores, iter_aliases)
+        f = Fn(sg["coq"], sg["params"], sg["ret"], aliases, done, sg.get("hints"), stores, iter_aliases, sg.get("unbound"))
         env = {p: ty for p, ty in sg["params"] if ty is not None}
         env.update(sg.get("env", {}))
         fin = None
         if sg.get("procedure_result"):      # a procedure: falling off the end returns the named state variable
             fin = lambda e, _n=sg["procedure_result"]: "(Ok %s)" % f.v(_n)
         body = f.block(stmts, env, fin)
+        for un, uty in (sg.get("unbound") or {}).items():
+            body = "let %s := (None : option %s) in %s" % (f.v(un), uty, body)
         binder = " ".join("(%s : %s)" % (f.v(p), ty) for p, ty in sg["params"] if ty is not None)
         binder += "".join(" (%s : %s)" % (n, ty) for n, ty in sg.get("extra_params", []))
         sec = sg.get("section")
